@@ -412,6 +412,13 @@ def make_module(I):
 
     def array(I, st, v, dtype=None):
         dt = None
+        if isinstance(dtype, BuiltinClass) and dtype.name == "object":
+            # 1-d object array of scalars / None: elements are kept as they are (no upcast).  Elements that are
+            # themselves sequences would make numpy choose between a ragged and a 2-d array: not modelled.
+            items = I.iterate(v, st)
+            if not all(x is None or isinstance(x, str) or is_number(x) for x in items):
+                raise Unsupported("np.array(dtype=object) with non-scalar elements")
+            return st.alloc(NdE((len(items),), list(items)))
         if isinstance(dtype, BuiltinClass) and dtype.name == "float":
             dt = "float"
         elif dtype is not None and not (isinstance(dtype, BuiltinClass) and dtype.name == "int"):
